@@ -1056,6 +1056,7 @@ def run(ck: Check) -> None:
     guard.campaign(ck, campaign_object_like, 120 if quick else 1000)
     ck.c17_obs = []
     me = sys.modules[__name__]
+    guard.campaign(ck, c17_fields.campaign_resolve, me, 150 if quick else 1500)
     guard.campaign(ck, c17_fields.campaign_defaults, me, 14 if quick else 120, 30)
     guard.campaign(ck, c17_fields.campaign_defaults_e2e, me, 30 if quick else 150)
     guard.campaign(ck, c17_fields.campaign_defaults_static, me, 12 if quick else 120)
